@@ -642,6 +642,12 @@ func TestVerifC05Stress(t *testing.T) {
 			case !res.Response || res.Id != req.Id || len(res.Question) != 1 ||
 				!strings.EqualFold(res.Question[0].Name, name) || res.Question[0].Qtype != qt:
 				note(&rep.Malformed, "%s from %s: response does not match the request: %v", name, addr, res)
+			default:
+				// what dnsproxy does with it next: the response must go on the wire
+				// and come back (round 4; harness/dnsforward/zz_verif_C05lease_test.go)
+				if v := c05WireCheck(req, res); v != "" {
+					note(&rep.Malformed, "%s from %s: %s", name, addr, v)
+				}
 			}
 		})
 		queries.Add(1)
